@@ -79,6 +79,9 @@ func (line *Line) Target() string {
 func (line *Line) Public() bool {
 	switch line.Cmd {
 	case PRIVMSG, NOTICE, ACTION:
+		if len(line.Args) < 1 || line.Args[0] == "" {
+			return false
+		}
 		switch line.Args[0][0] {
 		case '#', '&', '+', '!':
 			return true
@@ -90,6 +93,9 @@ func (line *Line) Public() bool {
 		// TODO(fluffle): Arguably this is broken, and we should have
 		// line.Args containing: []string{"#foo", "BAR", "baz"}
 		// ... OR change conn.Ctcp()'s argument order to be consistent.
+		if len(line.Args) < 2 || line.Args[1] == "" {
+			return false
+		}
 		switch line.Args[1][0] {
 		case '#', '&', '+', '!':
 			return true
@@ -125,6 +131,10 @@ func ParseLine(s string) *Line {
 		if idx := strings.Index(s, " "); idx != -1 {
 			rawTags, s = s[1:idx], s[idx+1:]
 		} else {
+			return nil
+		}
+		if s == "" {
+			// tags but nothing else
 			return nil
 		}
 
@@ -169,6 +179,10 @@ func ParseLine(s string) *Line {
 	} else {
 		args = strings.Fields(args[0])
 	}
+	if len(args) == 0 {
+		// no command at all
+		return nil
+	}
 	line.Cmd = strings.ToUpper(args[0])
 	if len(args) > 1 {
 		line.Args = args[1:]
@@ -178,7 +192,7 @@ func ParseLine(s string) *Line {
 	// separate events as opposed to forcing people to have gargantuan
 	// handlers to cope with the possibilities.
 	if (line.Cmd == PRIVMSG || line.Cmd == NOTICE) &&
-		len(line.Args[1]) > 2 &&
+		len(line.Args) > 1 && len(line.Args[1]) > 2 &&
 		strings.HasPrefix(line.Args[1], "\001") &&
 		strings.HasSuffix(line.Args[1], "\001") {
 		// WOO, it's a CTCP message
@@ -207,7 +221,7 @@ func ParseLine(s string) *Line {
 func parseUserHost(uh string) (nick, ident, host string, ok bool) {
 	uh = strings.TrimSpace(uh)
 	nidx, uidx := strings.Index(uh, "!"), strings.Index(uh, "@")
-	if uidx == -1 || nidx == -1 {
+	if uidx == -1 || nidx == -1 || uidx < nidx {
 		return "", "", "", false
 	}
 	return uh[:nidx], uh[nidx+1 : uidx], uh[uidx+1:], true
